@@ -24,6 +24,10 @@ def run(ctx):
     cfg = [(4, 400, 0), (8, 300, 0), (12, 200, 0), (4, 800, 0, 0, -2), (4, 800, 0, 0, -3)] if not ctx.thorough else [(4, 3000, 0), (8, 2500, 0), (12, 2000, 0), (16, 1500, 0), (3, 4000, 0), (4, 8000, 0, 0, -2), (4, 8000, 0, 0, -3), (4, 8000, 0, 0, -5)]
     run_lane(ctx, cfg, what="c04", order_property=True)
     forced(ctx, "f15_sync_overtake", "F15", "lane:order:sync-fastpath-overtakes:forced-F15", "F15")
+    # beyond the property's own histories: the (private, legacy) width setter on a busy queue - the drainer that ran it gives the queue
+    # back with the width it has now (widths >= 2 and the automatic constants)
+    from tracecheck import run_traces
+    run_traces(ctx, "c04_width", [[ctx.seed * 10 + i, 5000 if ctx.thorough else 1500] for i in range(3 if ctx.thorough else 2)], None, None, "L-api width changes on a busy queue", "width", timeout=300)
     ctx.cov["rule"] = ("tr_lane workloads on a serial and a concurrent queue: barrier / non-barrier async and sync items, async_and_wait, group_async, dispatch_apply on the queue, "
                        "suspend/resume; stamps checked for barrier overlap and both ordering clauses; every dq_state transition must be a step of LaneW. "
                        "distinct_nontrivial = transitions explained by the model")
